@@ -181,19 +181,10 @@ EsAnalyse(inst) ==
          needP      |-> NeedP(EpMax(mn.gd, EpMax(gl, PGuard(T))))]
 
 -----------------------------------------------------------------------------
-(* the enumerated family: all J0 with entries in -e..e; rows and columns    *)
-(* are scaled by eps^0 or eps^1, the scaled ones last (row / column         *)
-(* permutations of an instance are the same instance for the properties     *)
-(* that use this module), at least one row and one column unscaled, at      *)
-(* least one scaled.  EsFileInsts: instances listed by the harness          *)
-(* (seeded random ones: any pattern of scaled rows / columns).              *)
+(* the scalings of the enumerated families (DualCone.tla, CAGradSym.tla):   *)
+(* rows and columns are scaled by eps^0 or eps^1, the scaled ones last (row *)
+(* / column permutations of an instance are the same instance for the       *)
+(* properties that use this module), at least one row and one column        *)
+(* unscaled.  Listed instances (seeded random ones) use any pattern.        *)
 EsStep(n)  == {[i \in 1..n |-> IF i <= n - k THEN 0 ELSE 1] : k \in 0..(n - 1)}
-EsFamily(m, n, e) ==
-    {x \in {[J0 |-> M, rho |-> r, gam |-> g] : M \in [1..m -> [1..n -> (0 - e)..e]], r \in EsStep(m), g \in EsStep(n)} :
-        (\E i \in 1..m : x.rho[i] = 1) \/ (\E j \in 1..n : x.gam[j] = 1)}
-EsHash(inst) ==
-    LET es == [x \in 1..(Len(inst.J0) * Len(inst.J0[1])) |->
-                 inst.J0[((x - 1) \div Len(inst.J0[1])) + 1][((x - 1) % Len(inst.J0[1])) + 1]] \o inst.rho \o inst.gam
-        F[i \in 0..Len(es)] == IF i = 0 THEN 7 ELSE (F[i - 1] * 31 + es[i] + 3) % 10007
-    IN  F[Len(es)]
 =============================================================================
